@@ -444,6 +444,7 @@ fn run_tree(case: &Value) -> Value {
         pads.dedup();
         let frames: Vec<Value> = pads.iter().map(|p| send_frame(&v, cont, *p)).collect();
         res["frames"] = Value::Array(frames);
+        res["limit"] = json!(zlink_core::verif::LIMITS.1);
         res["serde_frame"] = match sframe {
             Some(b) => Value::String(hex(&b)),
             None => Value::Null,
